@@ -1,2 +1,575 @@
+"""C09 — key encoding, validation and the byte-string API of crypto/dsa/ecdsa.h.
+
+Decided clauses (structure, not values):
+  * R-BOUND   every read of the *_be/*_le entry points through a pointer whose size the caller passed stays inside that
+              size (relational abstract interpretation with the contracts bn_import_*_bin(bn, buf, len) reads len bytes,
+              bn_export_*_bin(bn, fl, buf, len, ret) writes len bytes).  An unproved read is reported as a violation only
+              when a finite instantiation of the sizes drives the function's own tests to the call with len > size.
+  * R-CODEC   writer/reader agreement of the public key encodings: for every layout the exporter can emit
+              (infinity / separate / packed / compressed, parity 0/1) the importer of the same byte order, given the
+              emitted size and prefix, succeeds and reads x and y from the offsets and lengths the exporter wrote them to,
+              passes the exporter's parity to ec_point_restore_y_by_x, or sets the neutral element; the reported size equals
+              the highest byte written; unknown prefixes and sizes are rejected.
+  * R-MPT     with validation enabled every accepting path of the importer passes ec_point_check_as_pub_key (directly,
+              or inside ec_point_restore_y_by_x whose own success paths all pass it) or is the neutral-element arm;
+              ec_point_check_as_pub_key passes both the on-curve and the order check.
+  * R-PARITY  ec_point_restore_y_by_x keeps the computed root iff its parity equals the requested one, otherwise p - root.
+  * R-TS      every accepting non-neutral arm of the importer defines point->infinity = 0 (the point may be reused).
+  * R-SIB     each *_be entry point and its *_le sibling are the same program up to the byte order of the bignum codec.
+Not decided: that the group arithmetic behind ecdsa_key_gen / ecdsa_dh computes the reference values (C02's clauses cover
+its structure), symmetry of Diffie-Hellman as a numerical fact, correctness of bn_mod_sqrt.
+"""
+import itertools
+from rules import driver, core, absint, r_mpt, r_stride, r_err
+from rules.core import key, walk, strip_casts, const_val
+from props import common, fixtures
+
+ECDSA_H = "include/crypto/dsa/ecdsa.h"
+EC_H = "include/math/elliptic_curve.h"
+TRUSTED = ["clang 14 front end + CFG builder", "tool/lcbfacts.cc", "rules/absint.py", "rules/r_stride.py partial evaluator", "python3"]
+
+VALIDATORS = ("ec_point_check_as_pub_key", "ec_point_restore_y_by_x")
+CALLEE_PAIRS = {
+    "bn_import_be_bin": [(1, 2, "r")], "bn_import_le_bin": [(1, 2, "r")],
+    "bn_export_be_bin": [(2, 3, "w")], "bn_export_le_bin": [(2, 3, "w")],
+    "ecdsa_pub_key_import_be": [(1, 3, "r")], "ecdsa_pub_key_import_le": [(1, 3, "r")],
+}
+# size parameter that bounds a pointer parameter when it is passed by value (inputs)
+PAIRS = {"sign_r": "sign_size", "sign_s": "sign_size", "pub_key_x": "pub_key_size", "pub_key_y": "pub_key_size"}
+
+
+def byte_fns(u):
+    return [fn for fn in u.function_list if fn.relfile() == ECDSA_H and fn.name.endswith(("_be", "_le")) and fn.has_cfg]
+
+
+def pairs_of(fn):
+    u = fn.unit
+    ps = absint.guess_pairs(fn)
+    names = {p["n"]: p for p in fn.params}
+    have = {p[0] for p in ps}
+    for a, b in PAIRS.items():
+        if a in names and b in names and a not in have and u.type(names[b]["t"])["k"] == "int":
+            ps.append((a, b, 1))
+    return ps
+
+
+# ------------------------------------------------------------------ R-BOUND
+
+def _site_call(stmt, what):
+    """the call node inside stmt that the obligation text names"""
+    name = what.split("(")[0]
+    for x, _ in walk(stmt):
+        if x.get("k") == "call" and x.get("fn") == name:
+            return x
+    return None
+
+
+def refute(pe, fn, pos, what, pairs):
+    """finite instantiation: sizes and curve->m from a small domain; the function's own branches are folded with those
+    values (calls returning a status are assumed to succeed); a witness reaches the call with offset+len > size"""
+    b, i = pos
+    stmt = fn.blocks[b].elems[i]
+    call = _site_call(stmt, what)
+    if call is None or call["fn"] not in CALLEE_PAIRS:
+        return None
+    u = fn.unit
+    ints = [p["n"] for p in fn.params if u.type(p["t"])["k"] in ("int", "enum")]
+    ptrs = [p["n"] for p in fn.params if u.type(p["t"])["k"] == "ptr"]
+    size_of = {p[0]: p[1] for p in pairs}
+    base = {n: 4096 * (j + 1) for j, n in enumerate(ptrs)}
+    body = set(fn.reachable_blocks())
+    dom = (1, 2, 3, 4, 5, 7)
+    for m in (8, 16, 24):
+        for vals in itertools.product(dom, repeat=len(ints)):
+            bind = dict(base)
+            bind.update(dict(zip(ints, vals)))
+            bind["curve->m"] = m
+            r, path = pe.reach_stmt(fn, fn.entry, body, bind, b, stmt)
+            if r != "sure":
+                continue
+            nb = pe.last_bind
+            for (pi, li, rw) in CALLEE_PAIRS[call["fn"]]:
+                try:
+                    pv = r_mpt.eval_expr(call["args"][pi], {}, pe._hook(nb, {}))
+                    lv = r_mpt.eval_expr(call["args"][li], {}, pe._hook(nb, {}))
+                except r_mpt.Unknown:
+                    continue
+                owner = [n for n in ptrs if base[n] <= pv < base[n] + 4096]
+                if not owner or owner[0] not in size_of:
+                    continue
+                cap = nb.get(size_of[owner[0]])
+                if not isinstance(cap, int):
+                    continue
+                off = pv - base[owner[0]]
+                if off + lv > cap:
+                    return "with %s and curve->m=%d the call at line %s %s %d bytes at offset %d of %s[%s=%d]" % (
+                        ", ".join("%s=%d" % kv for kv in zip(ints, vals)), m, stmt.get("ln"),
+                        "reads" if rw == "r" else "writes", lv, off, owner[0], size_of[owner[0]], cap)
+    return None
+
+
+def bound_rule(rep, u, fns):
+    pe = r_stride.PE(u, call_default=status_defaults(u))
+    n = 0
+    for fn in fns:
+        ps = pairs_of(fn)
+        if not ps:
+            continue
+        rep.functions.add(fn.name)
+        an = absint.Analysis(fn, pairs=ps, callee_pairs=CALLEE_PAIRS).run()
+        per = {}
+        for o in an.obligations:
+            if o["kind"] == "ret":
+                continue
+            n += 1
+            basek = "%s:%s" % ("write" if o["kind"] == "w" else "read", o["what"])
+            per[basek] = per.get(basek, 0) + 1
+            inst = "%s@%s" % (basek, o["buf"]) + ("" if per[basek] == 1 else "#%d" % per[basek])
+            desc = "%s of %s stays inside %s" % ("write" if o["kind"] == "w" else "read", o["what"], o["buf"])
+            if o["status"] == "proved":
+                rep.proved("R-BOUND", fn, inst, desc, o["detail"], o["ln"])
+            elif o["status"] == "alarm":
+                rep.violated("R-BOUND", fn, inst, desc, o["detail"], o["ln"])
+            else:
+                w = refute(pe, fn, o["pos"], o["what"], ps)
+                if w:
+                    rep.violated("R-BOUND", fn, inst, desc, "not bounded by the size the caller passed: " + w, o["ln"])
+                else:
+                    rep.undecided("R-BOUND", fn, inst, desc, o["detail"], o["ln"])
+    return n
+
+
+# ------------------------------------------------------------------ R-CODEC
+
+def status_defaults(u):
+    d = {}
+    for n, f in u.functions.items():
+        if n.startswith(("bn_", "ec_", "ecdsa_")) and n not in ("bn_is_odd", "bn_is_zero", "bn_is_one", "bn_cmp", "bn_is_even"):
+            d[n] = 0
+    return d
+
+
+B = 5        # bytes per coordinate used for the instantiation (any value > 2 separates the five size classes)
+BASE = {"curve": 0x1000, "point": 0x2000, "pub_key_x": 0x3000, "pub_key_y": 0x4000, "pub_key_size": 0x5000}
+
+
+def _field_of(arg):
+    """&point->x  ->  'x'"""
+    a = strip_casts(arg)
+    if a.get("k") == "un" and a["op"] == "&":
+        a = strip_casts(a["e"])
+    if a.get("k") == "mem":
+        return a["f"]
+    return None
+
+
+def _layout(pe, events, codec):
+    """summarise a trace: prefix store, coordinate transfers (field, buffer, offset, len), size store, flags"""
+    lay = {"prefix": None, "xfer": [], "size": None, "infinity": None, "restore": None, "check": False, "inf_before_check": None}
+    for e, b in events:
+        for x, _ in walk(e):
+            k = x.get("k")
+            if k == "bin" and x["op"] == "=":
+                lk = key(strip_casts(x["x"]))
+                try:
+                    v = r_mpt.eval_expr(x["y"], {}, pe._hook(b, {}))
+                except r_mpt.Unknown:
+                    v = None
+                if lk == "pub_key_x[0]":
+                    lay["prefix"] = v
+                elif lk == "*(pub_key_size)":
+                    lay["size"] = v
+                elif lk == "point->infinity":
+                    lay["infinity"] = v
+                    if lay["inf_before_check"] is None:
+                        lay["inf_before_check"] = not lay["check"] and lay["restore"] is None
+            elif k == "call" and x.get("fn") in codec:
+                pi, li = codec[x["fn"]]
+                try:
+                    pv = r_mpt.eval_expr(x["args"][pi], {}, pe._hook(b, {}))
+                    lv = r_mpt.eval_expr(x["args"][li], {}, pe._hook(b, {}))
+                except r_mpt.Unknown:
+                    pv = lv = None
+                buf = None
+                off = None
+                if pv is not None:
+                    for n, a in BASE.items():
+                        if a <= pv < a + 0x1000:
+                            buf, off = n, pv - a
+                lay["xfer"].append((_field_of(x["args"][0]), buf, off, lv))
+            elif k == "call" and x.get("fn") == "ec_point_restore_y_by_x":
+                try:
+                    lay["restore"] = r_mpt.eval_expr(x["args"][0], {}, pe._hook(b, {}))
+                except r_mpt.Unknown:
+                    lay["restore"] = "?"
+            elif k == "call" and x.get("fn") == "ec_point_check_as_pub_key":
+                lay["check"] = True
+    return lay
+
+
+def codec_rule(rep, u, order):
+    exp = u.fn("ecdsa_pub_key_export_" + order)
+    imp = u.fn("ecdsa_pub_key_import_" + order)
+    if exp is None or imp is None:
+        raise driver.AnalysisBroken("anchor ecdsa_pub_key_export/import_%s vanished" % order)
+    rep.functions.update([exp.name, imp.name])
+    pe = r_stride.PE(u, call_default=status_defaults(u))
+    oddk = "bn_is_odd(&(point->y))"
+    ecodec = {"bn_export_%s_bin" % order: (2, 3)}
+    icodec = {"bn_import_%s_bin" % order: (1, 2)}
+    n = 0
+    layouts = {}
+    for comp, ynull, inf, odd in itertools.product((0, 1), (0, 1), (0, 1), (0, 1)):
+        bind = dict(BASE)
+        if ynull:
+            bind["pub_key_y"] = 0
+        bind.update({"compress": comp, "curve->m": 8 * B, "point->infinity": inf, oddk: odd})
+        ev, ret = pe.trace(exp, bind)
+        name = "export[%s compress=%d y=%s infinity=%d odd=%d]" % (order, comp, "NULL" if ynull else "buf", inf, odd)
+        if isinstance(ret, str):
+            rep.undecided("R-CODEC", exp, name, "exporter layout is determined by its arguments", ret)
+            continue
+        if ret != 0:
+            rep.violated("R-CODEC", exp, name, "exporter succeeds for every valid argument combination",
+                         "returns %s when every bignum call succeeds" % ret)
+            continue
+        lay = _layout(pe, ev, ecodec)
+        n += 1
+        hi = max([1 if lay["prefix"] is not None else 0] + [(o or 0) + (l or 0) for f, bf, o, l in lay["xfer"] if bf == "pub_key_x"])
+        want = lay["size"] if any(bf == "pub_key_y" for f, bf, o, l in lay["xfer"]) is False else None
+        desc = "the size the exporter reports equals the bytes it wrote to pub_key_x"
+        if lay["size"] is None:
+            rep.violated("R-CODEC", exp, name + ":size", desc, "no size is reported on this path")
+        elif lay["size"] != hi:
+            rep.violated("R-CODEC", exp, name + ":size", desc, "reports %s but the highest byte written is %d (bytes=%d)" % (lay["size"], hi, B))
+        else:
+            rep.proved("R-CODEC", exp, name + ":size", desc, "size %d (bytes=%d)" % (hi, B))
+        layouts[(comp, ynull, inf, odd)] = lay
+        # the importer, given what the exporter emitted
+        ib = dict(BASE)
+        if ynull:
+            ib["pub_key_y"] = 0
+        ib.update({"pub_key_size": lay["size"], "curve->m": 8 * B})
+        if lay["prefix"] is not None:
+            ib["pub_key_x[0]"] = lay["prefix"]
+        iev, iret = pe.trace(imp, ib)
+        iname = "import-of-" + name
+        idesc = "the importer accepts what the exporter emitted and reads the coordinates from where they were written"
+        if isinstance(iret, str):
+            rep.undecided("R-CODEC", imp, iname, idesc, iret)
+            continue
+        if iret != 0:
+            rep.violated("R-CODEC", imp, iname, idesc, "importer returns %s for size=%s prefix=%s" % (iret, lay["size"], lay["prefix"]))
+            continue
+        il = _layout(pe, iev, icodec)
+        why = None
+        if inf:
+            if il["infinity"] != 1:
+                why = "the neutral element encoding does not set point->infinity = 1"
+        else:
+            ex = {f: (bf, o, l) for f, bf, o, l in lay["xfer"]}
+            ix = {f: (bf, o, l) for f, bf, o, l in il["xfer"]}
+            if ex.get("x") != ix.get("x"):
+                why = "x written at %s but read from %s" % (ex.get("x"), ix.get("x"))
+            elif "y" in ex:
+                if ex["y"] != ix.get("y"):
+                    why = "y written at %s but read from %s" % (ex.get("y"), ix.get("y"))
+            else:
+                if il["restore"] != odd:
+                    why = "compressed form: exporter encodes parity %d, importer requests parity %s" % (odd, il["restore"])
+            if why is None and il["infinity"] == 1:
+                why = "a finite point imports as the neutral element"
+        if why:
+            rep.violated("R-CODEC", imp, iname, idesc, why)
+        else:
+            rep.proved("R-CODEC", imp, iname, idesc, "layout %s" % (sorted(il["xfer"], key=str) or "neutral element"))
+    # rejection of unknown sizes / prefixes, acceptance of the standard ones
+    std = {1: {0}, 1 + B: {2, 3}, 1 + 2 * B: {4, 6, 7}}
+    seen_ts = set()
+    for size in (1, 2, B - 1, B, B + 1, B + 2, 2 * B - 1, 2 * B, 2 * B + 1, 2 * B + 2):
+        for prefix in range(0, 9):
+            ib = dict(BASE)
+            ib.update({"pub_key_size": size, "curve->m": 8 * B, "pub_key_x[0]": prefix})
+            iev, iret = pe.trace(imp, ib)
+            iname = "import[%s size=%s prefix=%d]" % (order, {1: "1", B: "bytes", B + 1: "1+bytes", 2 * B: "2*bytes", 2 * B + 1: "1+2*bytes"}.get(size, "other:%d" % size), prefix)
+            idesc = "sizes and prefixes outside the encodings are rejected, the standard ones accepted"
+            if isinstance(iret, str):
+                rep.undecided("R-CODEC", imp, iname, idesc, iret)
+                continue
+            n += 1
+            if size in std:
+                ok = (iret == 0) == (prefix in std[size])
+            elif size in (B, 2 * B):
+                ok = iret == 0        # raw coordinates: no prefix byte
+            else:
+                ok = iret != 0
+            if ok:
+                rep.proved("R-CODEC", imp, iname, idesc, "returns %s" % iret)
+            else:
+                rep.violated("R-CODEC", imp, iname, idesc, "returns %s" % iret)
+            if iret == 0 and size != 1 and ("ts", size) not in seen_ts:
+                seen_ts.add(("ts", size))
+                iname = iname.split(" prefix=")[0] + "]"
+                il = _layout(pe, iev, icodec)
+                d2 = "an accepted finite encoding leaves point->infinity == 0 whatever the object held before"
+                if il["infinity"] == 0 and il["inf_before_check"]:
+                    rep.proved("R-TS", imp, iname + ":infinity", d2, "point->infinity = 0 stored on the path, before the validation")
+                elif il["infinity"] == 0:
+                    rep.violated("R-TS", imp, iname + ":infinity", d2, "point->infinity = 0 is stored only after the validation: with a stale "
+                                 "infinity=1 the order check n*Q = O passes trivially")
+                else:
+                    rep.violated("R-TS", imp, iname + ":infinity", d2, "the path never stores point->infinity: a point object that held the "
+                                 "neutral element keeps infinity=1 and the imported key is treated as O")
+    return n
+
+
+# ------------------------------------------------------------------ R-MPT validation
+
+def validation_rule(rep, u):
+    """default configuration (EC_DISABLE_PUB_KEY_CHK not defined)"""
+    n = 0
+    chk = u.fn("ec_point_check_as_pub_key")
+    rst = u.fn("ec_point_restore_y_by_x")
+    if chk is None or rst is None:
+        raise driver.AnalysisBroken("anchor ec_point_check_as_pub_key / ec_point_restore_y_by_x vanished")
+    rep.functions.update([chk.name, rst.name])
+    def passes(fn, targets, accept_calls, what, extra_blocks=()):
+        """every entry->target path passes a block that contains one of the calls (whose failure leaves)"""
+        blocks = set(extra_blocks)
+        for bid in fn.reachable_blocks():
+            for e in fn.blocks[bid].elems:
+                for x, _ in walk(e):
+                    if x.get("k") == "call" and x.get("fn") in accept_calls:
+                        blocks.add(bid)
+        r = fn.reach_from([fn.entry], avoid=list(blocks))
+        bad = [t for t in targets if t[0] in r]
+        return blocks, bad
+    ctg = r_mpt.success_returns(chk)
+    for callee in ("ec_point_check_affine", "ec_point_check_scalar_mult"):
+        blocks, bad = passes(chk, ctg, {callee}, callee)
+        desc = "every success return of ec_point_check_as_pub_key passes %s" % callee
+        n += 1
+        if not ctg or not blocks or bad:
+            rep.violated("R-MPT", chk, "passes:" + callee, desc, "a success return is reachable without the call")
+        else:
+            rep.proved("R-MPT", chk, "passes:" + callee, desc, "call blocks %s cut every entry->success path" % sorted(blocks))
+        for bid in sorted(blocks):
+            n += 1
+            _status_guard(rep, chk, bid, ctg, (callee,))
+    # restore_y: every success return passes the check, and a failing check cannot reach success
+    tg = r_mpt.success_returns(rst)
+    blocks, bad = passes(rst, tg, {"ec_point_check_as_pub_key"}, "check")
+    desc = "every success return of ec_point_restore_y_by_x passes ec_point_check_as_pub_key"
+    n += 1
+    if not tg or not blocks:
+        rep.violated("R-MPT", rst, "validation", desc, "no success return / no check call found")
+    elif bad:
+        rep.violated("R-MPT", rst, "validation", desc, "a path reaches the success return at block B%d without the check" % bad[0][0])
+    else:
+        rep.proved("R-MPT", rst, "validation", desc, "check calls in blocks %s cut every entry->success path" % sorted(blocks))
+    # status of each check is tested: the edge taken for a non-zero status does not reach success ...
+    for bid in sorted(blocks):
+        n += 1
+        _status_guard(rep, rst, bid, tg)
+    for order in ("be", "le"):
+        imp = u.fn("ecdsa_pub_key_import_" + order)
+        tg = r_mpt.success_returns(imp)
+        inf_blocks = [bid for bid in imp.reachable_blocks() for e in imp.blocks[bid].elems
+                      if e.get("k") == "bin" and e["op"] == "=" and key(strip_casts(e["x"])) == "point->infinity" and const_val(e["y"]) == 1]
+        blocks, bad = passes(imp, tg, {"ec_point_check_as_pub_key", "ec_point_restore_y_by_x"}, "check", inf_blocks)
+        desc = "every accepting path of the importer validates the point (or is the neutral element arm)"
+        n += 1
+        if len(tg) < 5:
+            rep.violated("R-MPT", imp, "validation", desc, "expected five accepting arms, found %d" % len(tg))
+        elif bad:
+            ln = imp.blocks[bad[0][0]].elems[bad[0][1]].get("ln") if len(bad[0]) > 1 else None
+            rep.violated("R-MPT", imp, "validation", desc, "the success return at line %s is reachable without ec_point_check_as_pub_key / "
+                         "ec_point_restore_y_by_x" % ln, ln)
+        else:
+            rep.proved("R-MPT", imp, "validation", desc, "%d accepting returns; validating blocks %s" % (len(tg), sorted(blocks)))
+        for bid in sorted(set(blocks) - set(inf_blocks)):
+            n += 1
+            _status_guard(rep, imp, bid, tg)
+    return n
+
+
+def _status_guard(rep, fn, bid, targets, names=VALIDATORS):
+    """a non-zero status of the validating call in block bid cannot reach a success return without passing another
+    validating call: partial evaluation from the call with its result bound to a non-zero value"""
+    blk = fn.blocks[bid]
+    call = None
+    for e in blk.elems:
+        for x, _ in walk(e):
+            if x.get("k") == "call" and x.get("fn") in names:
+                call = x
+    inst = "status:%s#%s" % (call["fn"], _ordinal(fn, call))
+    desc = "a failing %s cannot reach a success return" % call["fn"]
+    pe = r_stride.PE(fn.unit)
+    body = {b for b in fn.reachable_blocks() if b == bid or not _has_check(fn, b, names)}
+    worst = "no"
+    for v in (1, -1, 22):
+        for t in targets:
+            stmt = fn.blocks[t[0]].elems[t[1]]
+            r, path = pe.reach_stmt(fn, bid, body, {key(call): v}, t[0], stmt)
+            if r == "sure":
+                return rep.violated("R-MPT", fn, inst, desc, "with status %d the success return at line %s is reached (blocks %s)" % (
+                    v, stmt.get("ln"), "->".join("B%d" % x for x in path)), call.get("ln"))
+            if r == "unsure":
+                worst = "unsure"
+    if worst == "unsure":
+        return rep.undecided("R-MPT", fn, inst, desc, "a test of the status could not be evaluated", call.get("ln"))
+    return rep.proved("R-MPT", fn, inst, desc, "for status in (1, -1, 22) no success return is reachable from the call without "
+                      "another validating call", call.get("ln"))
+
+
+def _has_check(fn, b, names=VALIDATORS):
+    for e in fn.blocks[b].elems:
+        for x, _ in walk(e):
+            if x.get("k") == "call" and x.get("fn") in names:
+                return True
+    return False
+
+
+def _ordinal(fn, call):
+    i = 0
+    for bid in sorted(fn.reachable_blocks(), reverse=True):
+        for e in fn.blocks[bid].elems:
+            for x, _ in walk(e):
+                if x.get("k") == "call" and x.get("fn") == call["fn"]:
+                    i += 1
+                    if x is call:
+                        return i
+    return 0
+
+
+# ------------------------------------------------------------------ R-PARITY
+
+def parity_rule(rep, u):
+    fn = u.fn("ec_point_restore_y_by_x")
+    pe = r_stride.PE(u, call_default=status_defaults(u))
+    n = 0
+    desc = "the stored y is the computed root iff its parity equals the requested parity, otherwise p - root"
+    for want, odd, am3 in itertools.product((0, 1), (0, 1), (0, 1)):
+        bind = {"y_is_odd": want, "bn_is_odd(&(tm1))": odd, "point": 0x2000, "curve": 0x1000, "curve->flags": am3}
+        ev, ret = pe.trace(fn, bind)
+        inst = "parity[want=%d root_odd=%d a_m3=%d]" % (want, odd, am3)
+        if isinstance(ret, str):
+            rep.undecided("R-PARITY", fn, inst, desc, ret)
+            continue
+        n += 1
+        # the last assignment to point->y, and how its source was computed
+        src = None
+        tm2_from = None
+        for e, b in ev:
+            for x, _ in walk(e):
+                if x.get("k") != "call":
+                    continue
+                a0 = key(strip_casts(x["args"][0])) if x["args"] else None
+                if x.get("fn") == "bn_assign" and a0 == "&(point->y)":
+                    src = key(strip_casts(x["args"][1]))
+                elif x.get("fn") == "bn_assign" and a0 == "&(tm2)":
+                    tm2_from = key(strip_casts(x["args"][1]))
+                elif x.get("fn") == "bn_mod_sub" and a0 == "&(tm2)" and tm2_from == "&(curve->p)" and \
+                        key(strip_casts(x["args"][1])) == "&(tm1)":
+                    tm2_from = "p - root"
+        if ret != 0:
+            rep.violated("R-PARITY", fn, inst, desc, "returns %s although every bignum call succeeds" % ret)
+        elif want == odd and src == "&(tm1)":
+            rep.proved("R-PARITY", fn, inst, desc, "y := root")
+        elif want != odd and src == "&(tm2)" and tm2_from == "p - root":
+            rep.proved("R-PARITY", fn, inst, desc, "y := p - root")
+        else:
+            rep.violated("R-PARITY", fn, inst, desc, "y := %s (%s)" % (src, tm2_from))
+    return n
+
+
+# ------------------------------------------------------------------ R-SIB
+
+def _norm(s, order):
+    """only the function's own byte order is abstracted: a _le function calling a _be codec keeps the foreign name"""
+    return s.replace("_%s_bin" % order, "_XX_bin").replace("_%s(" % order, "_XX(")
+
+
+def sibling_rule(rep, u, fns):
+    by = {fn.name: fn for fn in fns}
+    n = 0
+    for name, fn in sorted(by.items()):
+        if not name.endswith("_be"):
+            continue
+        sib = by.get(name[:-3] + "_le")
+        desc = "%s and its _le sibling are the same program up to the byte order of the bignum codec" % name
+        if sib is None:
+            rep.violated("R-SIB", fn, "sibling", desc, "no _le sibling")
+            continue
+        n += 1
+        a = [_norm(key(e), "be") for b in fn.rpo() for e in fn.blocks[b].elems]
+        b_ = [_norm(key(e), "le") for b in sib.rpo() for e in sib.blocks[b].elems]
+        if a == b_:
+            rep.proved("R-SIB", fn, "sibling", desc, "%d statements agree" % len(a))
+        else:
+            d = next((i for i in range(min(len(a), len(b_))) if a[i] != b_[i]), min(len(a), len(b_)))
+            rep.violated("R-SIB", fn, "sibling", desc, "first difference at statement %d: %s  vs  %s" % (
+                d, a[d] if d < len(a) else "<end>", b_[d] if d < len(b_) else "<end>"))
+    return n
+
+
+# ------------------------------------------------------------------ entry points
+
 def byte_api(rep, us, prop):
-    pass
+    """shared with C03: R-BOUND + R-SIB over the byte API of the default unit"""
+    u = us.get("ecdsa:default")
+    if u is None:
+        return 0
+    fns = byte_fns(u)
+    n = bound_rule(rep, u, fns)
+    n += sibling_rule(rep, u, fns)
+    return n
+
+
+def units(tier):
+    us = [common.ecdsa_unit("ecdsa:default"), common.ecdsa_unit("ecdsa:test", common.EC_TEST_DEFS)]
+    if tier == "thorough":
+        for w in (32, 64):
+            for proj in (0, 1):
+                defs = ["BN_DIGIT_BIT_CNT=%d" % w, "BN_BIT_LEN=1408"]
+                if proj:
+                    defs.append("EC_USE_PROJECTIVE=1")
+                us.append(common.ecdsa_unit("ecdsa:w%d:proj%d" % (w, proj), defs))
+    return us
+
+
+def run(rep, tier):
+    us = driver.load_units(units(tier))
+    rep.use_units(us)
+    nb = nc = nv = np_ = ns = 0
+    for lab, u in us.items():
+        fns = byte_fns(u)
+        rep.floor("byte-string entry points in %s" % lab, len(fns), 16)
+        nb += bound_rule(rep, u, fns)
+        ns += sibling_rule(rep, u, fns)
+        for order in ("be", "le"):
+            nc += codec_rule(rep, u, order)
+        np_ += parity_rule(rep, u)
+        if lab != "ecdsa:test":      # the test configuration defines EC_DISABLE_PUB_KEY_CHK
+            nv += validation_rule(rep, u)
+    rep.floor("bounded reads/writes decided", nb, 60)
+    rep.floor("codec layouts and importer arms evaluated", nc, 200)
+    rep.floor("validation obligations", nv, 10)
+    rep.floor("parity cases", np_, 8)
+    rep.floor("sibling pairs", ns, 16)
+    return driver.finish(
+        rep, "other",
+        "Byte API of crypto/dsa/ecdsa.h in %d configurations: reads bounded by caller sizes (abstract interpretation), exporter/importer "
+        "layout agreement by partial evaluation of both functions over every argument class, validation must-pass-through, parity "
+        "selection, infinity typestate, _be/_le sibling agreement.  NOT decided: numerical agreement of key generation / "
+        "Diffie-Hellman with a reference, correctness of the modular square root." % len(us),
+        ["bn_import_*_bin reads exactly its length argument, bn_export_*_bin writes exactly its length argument (C01 covers their bodies)",
+         "output buffers without a size parameter are as large as the header comment demands (1 + 2*bytes)"], TRUSTED)
+
+
+def selftest():
+    u = fixtures.load("byteapi.c")
+    rep = driver.Report("fixture", "quick")
+    fns = [f for f in u.function_list if f.name.startswith("fx_")]
+    bound_rule(rep, u, fns)
+    fixtures.expect(rep, ["fx_sign_bad_be"], ["fx_sign_ok_be"], "R-BOUND")
